@@ -80,7 +80,7 @@ func c18() []*Ob {
 					}
 				}
 			}},
-		{Prop: "C18", ID: "C18.2", Engine: "ORDER", Floor: 8,
+		{Prop: "C18", ID: "C18.2", Engine: "ORDER", Floor: 7,
 			Desc: "entry state machine: save stores value and size, clears wg, unlocks, then wg.Done, then adds the size to the generation; recover deletes the key under the lock before wg.Done; getOrCreate publishes the new entry with its WaitGroup (Add(1) done) before unlocking and looks the key up again after waiting on an entry that is still pending",
 			Check: func(c *Ctx) {
 				if fn := c.Fn("(*cache.Cache).save"); fn != nil {
@@ -200,7 +200,7 @@ func c18() []*Ob {
 					}
 				}
 			}},
-		{Prop: "C18", ID: "C18.3", Engine: "ORDER+DOM", Floor: 6,
+		{Prop: "C18", ID: "C18.3", Engine: "ORDER+DOM", Floor: 4,
 			Desc: "errors and panics do not poison: in Get and GetWithError the deferred handlePanic is registered before the loader runs; handlePanic removes the entry (recover) and re-panics; GetWithError saves only under err == nil and otherwise removes the entry and returns the error",
 			Check: func(c *Ctx) {
 				for _, name := range []string{"(*cache.Cache).Get", "(*cache.Cache).GetWithError"} {
@@ -349,7 +349,7 @@ func c18() []*Ob {
 					}
 				}
 			}},
-		{Prop: "C18", ID: "C18.5", Engine: "OWN+IDIOM", Floor: 3,
+		{Prop: "C18", ID: "C18.5", Engine: "OWN+IDIOM", Floor: 2,
 			Desc: "bucket bookkeeping: Cleaner.buckets is stored only by AddBucket and ReleaseBuckets; removal does not use the provably wrong idiom (ascending walk over collected indices, swap with a decrementing last, no liveness re-check of the moved element)",
 			Check: func(c *Ctx) {
 				owners := map[string]bool{"(*cache.Cleaner).AddBucket": true, "(*cache.Cleaner).ReleaseBuckets": true}
